@@ -17,6 +17,14 @@ CLAIMS = {
         note="A1, A2, A4; trusted: numpy.vectorize contract (elementwise, dtype = otypes), z3/cvc5, the E1 encoder (cross-checked against CPython on seeded inputs each run); arguments that are computed columns are constrained by type only",
         ref="7 C03",
     ),
+    "C07": dict(
+        engine="E4 symdate",
+        level="proof",
+        technique="contract-based verification by exhaustive interval execution: the real set_up_policy_environment runs on interval-valued dates that answer a comparison only when the whole interval agrees (else split), giving a finite partition of ALL calendar days 1980..last entry+1y; each class is checked against an independent specification of the law in force; E1/z3 proofs of is_active_at_date and the overlap check",
+        text="About 500 date classes covering every day of 1980-01-01..2032: for each class and parameter group the environment equals specs/param_resolution.py (latest entry, deviations, vorjahr/jahresanfang look-ups, rounding specs, piecewise schedules at 1e-9, year-derived values), exactly the implementation in force is returned for every column name, and every split point the code asked for is a declared change date, 1 January or 29 Feb/1 Mar (or has identical environments on both sides). is_active_at_date and the registration overlap check are proved by z3 for all dates.",
+        note="soundness of the interval date (vt/symdate.py: only the overridden observations answer, everything else raises) and of the numpy.datetime64 stub; yaml.CLoader, deepcopy; the specification itself; float comparison 1e-9",
+        ref="7 C07",
+    ),
     "C08": dict(
         engine=E1,
         level="proof",
@@ -100,6 +108,7 @@ CLAIMS = {
 }
 
 ENGINES_EXTRA = [
+    {"name": "E4 symdate", "path": "vt/symdate.py", "serves_properties": ["C07"], "kind_free_text": "interval-valued datetime.date subclass driving the real YAML loader; exhaustive case split over all calendar days"},
     {"name": "E2 loopvc", "path": "vt/loopvc.py", "serves_properties": ["C11", "C12"], "kind_free_text": "weakest-precondition style VC generation for loops over arrays/dicts/lists from the real AST, invariants from sidecar contracts (contracts/groupings.py), z3 arrays + quantifiers, unbounded N"},
 ]
 
